@@ -15,7 +15,7 @@
    int element beyond C int), long-form field headers / ids > 127 / type nibbles 0,7,10,11,13-15
    on the read side (read_thrift mis-reads doubles and prints 'Corrupted' for unknown nibbles).  *)
 From Coq Require Import NArith ZArith List Bool.
-From Pq Require Import Base.Bytes Thrift.Varint.
+From Pq Require Import Base.Bytes Thrift.Varint Thrift.Compact.
 Import ListNotations.
 Open Scope N_scope.
 
@@ -30,7 +30,7 @@ Inductive pv :=
 | PDict (i32 : bool) (i32l : option (list Z)) (fs : list (Z * pv)).
    (* int-keyed entries in insertion order; i32 = the key "i32" is present; i32l = value of "i32list" *)
 
-Definition lenN {A} (l : list A) : N := N.of_nat (length l).
+(* `len`, `take` (n bytes off the front) are the generic list utilities of Thrift/Compact.v *)
 
 (* ---- buffer call trace --------------------------------------------------------------------- *)
 Inductive op := WB (b : N) | Raw (l : bytes).
@@ -66,7 +66,7 @@ Definition int_nib (i32 : bool) (i32l : option (list Z)) (i : Z) : N :=
   end.
 
 Definition hdr (delt : Z) (t : N) : op := WB (Z.to_N delt * 16 + t).      (* (delt << 4) | t *)
-Definition w_str (l : bytes) : list op := wvarint (lenN l) ++ [Raw l].
+Definition w_str (l : bytes) : list op := wvarint (len l) ++ [Raw l].
 Definition list_hdr (t n : N) : list op :=
   if 14 <? n then WB (t + 240) :: wvarint n else [WB (t + n * 16)].      (* t | 0xf0 ; t | (l << 4) *)
 
@@ -105,12 +105,26 @@ Definition w_list_with (w_dict : pv -> option (list op)) (l : list pv) : option 
   | [] => Some [WB 0]                                        (* encode_unsigned_varint(0) *)
   | first :: _ =>
     match first with
-    | PBool _ => option_map (app (list_hdr 5 (lenN l))) (w_items w_int_elem l)
-    | PInt _ => option_map (app (list_hdr 5 (lenN l))) (w_items w_int_elem l)
-    | PBytes _ => option_map (app (list_hdr 8 (lenN l))) (w_items w_bytes_elem l)
-    | PStr _ => option_map (app (list_hdr 8 (lenN l))) (w_items w_str_elem l)
-    | _ => option_map (app (list_hdr 12 (lenN l))) (w_items w_dict l)
+    | PBool _ => option_map (app (list_hdr 5 (len l))) (w_items w_int_elem l)
+    | PInt _ => option_map (app (list_hdr 5 (len l))) (w_items w_int_elem l)
+    | PBytes _ => option_map (app (list_hdr 8 (len l))) (w_items w_bytes_elem l)
+    | PStr _ => option_map (app (list_hdr 8 (len l))) (w_items w_str_elem l)
+    | _ => option_map (app (list_hdr 12 (len l))) (w_items w_dict l)
     end
+  end.
+
+(* one present field: header byte(s) with the type nibble, then the value *)
+Definition w_field (w_dict : pv -> option (list op)) (i32 : bool) (i32l : option (list Z)) (delt i : Z) (v : pv)
+  : option (list op) :=
+  match v with
+  | PNone => Some []
+  | PBool b => Some [hdr delt (if b then 1 else 2)]
+  | PInt z => if in_i64 z then Some (hdr delt (int_nib i32 i32l i) :: wvarint (zz z)) else None
+  | PFloat bits => Some [hdr delt 7; Raw (le_enc 8 bits)]
+  | PBytes l => Some (hdr delt 8 :: w_str l)
+  | PStr l => Some (hdr delt 8 :: w_str l)
+  | PList l => option_map (cons (hdr delt 9)) (w_list_with w_dict l)
+  | PDict _ _ _ => option_map (cons (hdr delt 12)) (w_dict v)
   end.
 
 Fixpoint w_thrift (d : nat) (i32 : bool) (i32l : option (list Z)) (fs : list (Z * pv)) {struct d}
@@ -119,17 +133,7 @@ Fixpoint w_thrift (d : nat) (i32 : bool) (i32l : option (list Z)) (fs : list (Z 
   | O => None
   | S d' =>
     let w_dict := fun v : pv => match v with PDict a b c => w_thrift d' a b c | _ => None end in
-    w_fields (fun (delt i : Z) (v : pv) =>
-      match v with
-      | PNone => Some []
-      | PBool b => Some [hdr delt (if b then 1 else 2)]
-      | PInt z => if in_i64 z then Some (hdr delt (int_nib i32 i32l i) :: wvarint (zz z)) else None
-      | PFloat bits => Some [hdr delt 7; Raw (le_enc 8 bits)]
-      | PBytes l => Some (hdr delt 8 :: w_str l)
-      | PStr l => Some (hdr delt 8 :: w_str l)
-      | PList l => option_map (cons (hdr delt 9)) (w_list_with w_dict l)
-      | PDict a b c => option_map (cons (hdr delt 12)) (w_thrift d' a b c)
-      end) ids13 0%Z fs
+    w_fields (w_field w_dict i32 i32l) ids13 0%Z fs
   end.
 
 Definition w_depth : nat := 64.
@@ -146,8 +150,8 @@ Fixpoint run_ops (cap : N) (ops : list op) (s : st) : option st :=       (* None
   match ops with
   | [] => Some s
   | WB b :: r => run_ops cap r (if cap <=? loc s then s else mkSt (loc s + 1) (b :: out s))
-  | Raw l :: r => if loc s + lenN l <=? cap
-                  then run_ops cap r (mkSt (loc s + lenN l) (rev_append l (out s)))
+  | Raw l :: r => if loc s + len l <=? cap
+                  then run_ops cap r (mkSt (loc s + len l) (rev_append l (out s)))
                   else None
   end.
 
@@ -164,12 +168,6 @@ Definition to_bytes (cap : N) (v : pv) : outcome :=
   end.
 
 (* ---- reader -------------------------------------------------------------------------------- *)
-Fixpoint take_rev (bs : bytes) (n : N) (acc : bytes) {struct bs} : option (bytes * bytes) :=
-  if n =? 0 then Some (acc, bs) else
-  match bs with [] => None | b :: r => take_rev r (N.pred n) (b :: acc) end.
-Definition take (n : N) (bs : bytes) : option (bytes * bytes) :=
-  match take_rev bs n [] with Some (a, r) => Some (rev_append a [], r) | None => None end.
-
 (* zigzag_long(read_unsigned_var_int(data)) *)
 Definition r_int (bs : bytes) : option (pv * bytes) :=
   match unuleb bs with
@@ -310,3 +308,7 @@ Fixpoint dict_eq (d : nat) (f1 f2 : list (Z * pv)) {struct d} : bool :=
         end
       end) (keys_union f1 f2)
   end.
+
+(* ThriftObject.__eq__ on two objects *)
+Definition obj_eq (a b : pv) : bool :=
+  match a, b with PDict _ _ f, PDict _ _ g => dict_eq w_depth f g | _, _ => false end.
